@@ -255,3 +255,274 @@ Proof.
   - repeat constructor.
   - vm_compute. reflexivity.
 Qed.
+
+(* ######################################################################## round 3 (coverage extension)
+   Everything below is additive: the guards of the code (clamp_min in the orthogonalisation, the
+   length-only check of the requested weights), linearly DEPENDENT and zero modes, ties, every
+   tomography combination, one common shift for all modes (center_probe, repaired). *)
+Local Close Scope Qc_scope.
+Local Open Scope Q_scope.
+
+(* ================================================================ tomography: every combination *)
+Theorem C10_tomo_pixel_cases : forall x s,
+  tomo_pixel false None x = x /\
+  tomo_pixel true None x = qmax x 0 /\
+  tomo_pixel false (Some s) x = qmax (x - s) 0 /\
+  tomo_pixel true (Some s) x = qmax (qmax x 0 - s) 0.
+Proof. exact tomo_pixel_cases. Qed.
+Print Assumptions C10_tomo_pixel_cases.
+
+Theorem C10_tomo_unconstrained : forall obj, tomo_hard false None obj = obj.
+Proof. exact tomo_unconstrained. Qed.
+Print Assumptions C10_tomo_unconstrained.
+
+(* re-applying the positivity clamp changes nothing; shrinkage (a soft threshold) is NOT idempotent *)
+Theorem C10_tomo_positivity_idempotent : forall obj,
+  tomo_hard true None (tomo_hard true None obj) = tomo_hard true None obj.
+Proof. exact tomo_positivity_idempotent. Qed.
+Print Assumptions C10_tomo_positivity_idempotent.
+
+Theorem C10_tomo_shrinkage_not_idempotent :
+  exists pos s obj, ~ Forall2 Qeq (tomo_hard pos (Some s) (tomo_hard pos (Some s) obj)) (tomo_hard pos (Some s) obj).
+Proof. exact tomo_shrinkage_not_idempotent. Qed.
+Print Assumptions C10_tomo_shrinkage_not_idempotent.
+
+Theorem C10_tomo_shrink_le : forall pos s obj, 0 <= s ->
+  Forall2 (fun y x => y <= qmax x 0) (tomo_hard pos (Some s) obj) obj.
+Proof. exact tomo_shrink_le_all. Qed.
+Print Assumptions C10_tomo_shrink_le.
+
+Local Close Scope Q_scope.
+Local Open Scope Qc_scope.
+
+(* ================================================================ Gram-Schmidt without independence *)
+(* the residuals of ANY input family (dependent, repeated, zero modes included) are pairwise
+   orthogonal *)
+Theorem C10_gs_orthogonal_any_inputs : forall n ps,
+  allN n ps -> pairwise (fun a b => dot a b = c0) (gs ps).
+Proof. exact gs_pairwise_any. Qed.
+Print Assumptions C10_gs_orthogonal_any_inputs.
+
+(* a residual vanishes exactly when its mode is a linear combination of the earlier modes *)
+Theorem C10_gs_zero_residual_iff_dependent : forall n front p,
+  allN n front -> length p = n ->
+  (norm2 (residual (gs front) p) = 0 <->
+   exists cs, length cs = length front /\ p = lincomb n cs front).
+Proof. exact residual_zero_iff_dependent. Qed.
+Print Assumptions C10_gs_zero_residual_iff_dependent.
+
+(* ================================================================ the clamp_min(1e-12) guard *)
+(* every residual at least eps long: the clamped loop IS the model of the theorems above *)
+Theorem C10_gsc_clamp_idle_is_model : forall eps2 ps,
+  Forall (fun u => eps2 <= norm2 u) (gs ps) -> orthogonalize_c eps2 ps = orthogonalize ps.
+Proof. exact orthogonalize_c_idle. Qed.
+Print Assumptions C10_gsc_clamp_idle_is_model.
+
+(* hence the three clauses of the property for the code WITH its guard, the premise "the clamp never
+   acts" now explicit and checkable on the exact residuals *)
+Theorem C10_gsc_property_clauses : forall n eps2 ps,
+  allN n ps -> lin_indep n ps -> Forall (fun u => eps2 <= norm2 u) (gs ps) ->
+  (forall i j mi mj, i <> j ->
+     nth_error (orthogonalize_c eps2 ps) i = Some mi -> nth_error (orthogonalize_c eps2 ps) j = Some mj ->
+     dot (snd mi) (snd mj) = c0 /\ mode_gram2 mi mj = 0) /\
+  Permutation (map mode_intensity (orthogonalize_c eps2 ps)) (map norm2 ps) /\
+  StronglySorted (fun a b => mode_intensity b <= mode_intensity a) (orthogonalize_c eps2 ps).
+Proof. exact gsc_property_clauses. Qed.
+Print Assumptions C10_gsc_property_clauses.
+
+(* linearly DEPENDENT or zero inputs, each residual exactly zero or at least eps long (what the clamp
+   does then: the dependent mode comes out as the zero vector).  What still holds: orthogonality ... *)
+Theorem C10_gsc_orthogonal_dependent : forall n eps2 ps i j mi mj,
+  allN n ps -> clamp_clean eps2 (gs ps) -> i <> j ->
+  nth_error (orthogonalize_c eps2 ps) i = Some mi -> nth_error (orthogonalize_c eps2 ps) j = Some mj ->
+  dot (snd mi) (snd mj) = c0 /\ mode_gram2 mi mj = 0.
+Proof. exact gsc_orthogonal_dependent. Qed.
+Print Assumptions C10_gsc_orthogonal_dependent.
+
+(* ... and every mode keeps its intensity except the dependent ones, which lose all of it (the
+   intensity multiset is NOT preserved for dependent inputs: this is why they are outside the claim) *)
+Theorem C10_gsc_intensity_dependent : forall eps2 ps, 0 < eps2 -> clamp_clean eps2 (gs ps) ->
+  Permutation (map mode_intensity (orthogonalize_c eps2 ps))
+              (map (fun pu => kept_intensity (fst pu) (snd pu)) (combine ps (gs ps))).
+Proof. exact gsc_intensity_dependent. Qed.
+Print Assumptions C10_gsc_intensity_dependent.
+
+(* for ALL inputs and every eps > 0: no mode gains intensity, the total never grows, the order is
+   descending *)
+Theorem C10_gsc_intensity_le : forall eps2 ps, 0 < eps2 ->
+  Forall2 (fun m p => mode_intensity m <= norm2 p) (gs_modes_c eps2 ps) ps.
+Proof. exact gsc_intensity_le. Qed.
+Print Assumptions C10_gsc_intensity_le.
+
+Theorem C10_gsc_total_intensity_le : forall eps2 ps, 0 < eps2 ->
+  qcsum (map mode_intensity (orthogonalize_c eps2 ps)) <= qcsum (map norm2 ps).
+Proof. exact gsc_total_intensity_le. Qed.
+Print Assumptions C10_gsc_total_intensity_le.
+
+Theorem C10_gsc_sorted_desc : forall eps2 ps,
+  StronglySorted (fun a b => mode_intensity b <= mode_intensity a) (orthogonalize_c eps2 ps).
+Proof. exact gsc_sorted_desc. Qed.
+Print Assumptions C10_gsc_sorted_desc.
+
+(* ================================================================ ties *)
+(* any descending arrangement of the same modes (any tie-break of argsort) shows the intensity
+   sequence of the model's sort *)
+Theorem C10_gs_any_tiebreak_same_intensities : forall (ms out : list (Qc * list C)),
+  Permutation out ms ->
+  StronglySorted (fun a b => mode_intensity b <= mode_intensity a) out ->
+  map mode_intensity out = map mode_intensity (sort_desc ms).
+Proof. exact any_tiebreak_same_intensities. Qed.
+Print Assumptions C10_gs_any_tiebreak_same_intensities.
+
+(* the model's sort is stable: modes of one intensity keep their input order *)
+Theorem C10_gs_sort_stable : forall v l,
+  filter (has_intensity v) (sort_desc l) = filter (has_intensity v) l.
+Proof. exact sort_desc_stable. Qed.
+Print Assumptions C10_gs_sort_stable.
+
+(* ================================================================ one isometry for the whole stack *)
+(* center_probe (repaired: one Fourier shift, from the centre of mass of the total intensity): a
+   map that preserves inner products, applied to every mode, preserves every mode intensity and
+   every Gram entry — orthogonality, multiset and order survive *)
+Theorem C10_common_isometry_preserves : forall U ms n,
+  isometry U -> Forall (fun m : Qc * list C => length (snd m) = n) ms ->
+  map mode_intensity (map_modes U ms) = map mode_intensity ms /\
+  (forall i j mi mj, nth_error ms i = Some mi -> nth_error ms j = Some mj ->
+     exists mi' mj', nth_error (map_modes U ms) i = Some mi' /\ nth_error (map_modes U ms) j = Some mj' /\
+                     dot (snd mi') (snd mj') = dot (snd mi) (snd mj) /\ mode_gram2 mi' mj' = mode_gram2 mi mj).
+Proof. exact common_isometry_preserves. Qed.
+Print Assumptions C10_common_isometry_preserves.
+
+(* ================================================================ requested weights at the edges *)
+(* the mode intensities of the initial probe: mean * w_i / sum w, whatever the input intensities *)
+Theorem C10_weights_closed_form : forall mean raw I,
+  length raw = length I -> mean <> 0 -> qcsum raw <> 0 -> Forall (fun x => 0 < x) I ->
+  apply_weights mean (norm_weights raw) I = map (fun w => w / qcsum raw * mean) raw.
+Proof. exact weights_closed_form. Qed.
+Print Assumptions C10_weights_closed_form.
+
+(* the squared factor applied to mode i, and that it reproduces apply_weights *)
+Theorem C10_weight_scales_closed : forall mean w I,
+  length w = length I -> mean <> 0 -> qcsum I <> 0 -> Forall (fun x => x <> 0) I ->
+  weight_scales mean w I = map (fun wx => fst wx * mean / snd wx) (combine w I).
+Proof. exact weight_scales_closed. Qed.
+Print Assumptions C10_weight_scales_closed.
+
+Theorem C10_weight_scales_spec : forall mean w I,
+  map (fun sx => fst sx * snd sx) (combine (weight_scales mean w I) I) = apply_weights mean w I.
+Proof. exact weight_scales_spec. Qed.
+Print Assumptions C10_weight_scales_spec.
+
+(* admissible request (non-zero sum, all relative weights >= 0; zeros and all-negative lists
+   included): a real scaling exists for every mode *)
+Theorem C10_weight_scales_nonneg : forall mean raw I,
+  length raw = length I -> 0 < mean -> weights_admissible raw -> Forall (fun x => 0 < x) I ->
+  Forall (fun s => 0 <= s) (weight_scales mean (norm_weights raw) I).
+Proof. exact weight_scales_nonneg. Qed.
+Print Assumptions C10_weight_scales_nonneg.
+
+(* a negative relative weight: the squared factor is negative (the code's sqrt gives NaN) *)
+Theorem C10_weight_scale_negative : forall mean w I k wk Ik,
+  length w = length I -> 0 < mean -> qcsum I <> 0 -> Forall (fun x => 0 < x) I ->
+  nth_error w k = Some wk -> nth_error I k = Some Ik -> wk < 0 ->
+  exists s, nth_error (weight_scales mean w I) k = Some s /\ s < 0.
+Proof. exact weight_scale_negative. Qed.
+Print Assumptions C10_weight_scale_negative.
+
+(* under the only guard the setter has (the length) the total-intensity clause is FALSE: a zero-sum
+   request cannot be normalised (the code returns inf / NaN weights) *)
+Definition C10_weights_unguarded_statement : Prop :=
+  forall mean raw I, weights_guard_code raw I -> 0 < mean -> Forall (fun x => 0 < x) I ->
+    qcsum (apply_weights mean (norm_weights raw) I) = mean.
+Theorem C10_weights_unguarded_refuted : ~ C10_weights_unguarded_statement.
+Proof. exact weights_unguarded_refuted. Qed.
+Print Assumptions C10_weights_unguarded_refuted.
+
+Theorem C10_weights_zero_weight_mode : forall mean raw I k,
+  length raw = length I -> mean <> 0 -> qcsum raw <> 0 -> Forall (fun x => 0 < x) I ->
+  nth_error raw k = Some 0 ->
+  nth_error (apply_weights mean (norm_weights raw) I) k = Some 0.
+Proof. exact weights_zero_weight_mode. Qed.
+Print Assumptions C10_weights_zero_weight_mode.
+
+(* ================================================================ non-vacuity (round 3) *)
+Definition qi : C := (0, 1).
+Definition q2 : Qc := Q2Qc 2.
+(* p1 = (1, 0), p2 = 2i p1 (dependent), p3 = (1, 3) *)
+Definition ex_dep : list vec := [[c1; c0]; [(0, q2); c0]; [c1; (Q2Qc 3, 0)]].
+
+Example C10_nonvacuous_dependent_hyps :
+  allN 2 ex_dep /\ 0 < eps2_code /\ clamp_clean eps2_code (gs ex_dep) /\ ~ lin_indep 2 ex_dep.
+Proof.
+  split; [repeat constructor | split; [reflexivity | split]].
+  - apply clamp_clean_b_ok. vm_compute. reflexivity.
+  - intros H. specialize (H [(0, q2); copp c1; c0] eq_refl).
+    assert (E : lincomb 2 [(0, q2); copp c1; c0] ex_dep = vzeros 2).
+    { unfold ex_dep. cbn [lincomb vadd vzip vscale map vzeros repeat]. repeat f_equal; apply injective_projections; cbn [fst snd]; apply Qc_is_canon; vm_compute; reflexivity. }
+    specialize (H E). inversion H as [|? ? H0 _]. apply (f_equal snd) in H0. apply (f_equal this) in H0. vm_compute in H0. discriminate H0.
+Qed.
+
+(* the dependent mode comes out as the zero vector with intensity 0 (input intensities 1, 4, 10) *)
+Example C10_nonvacuous_dependent_run :
+  map (fun m => this (mode_intensity m)) (orthogonalize_c eps2_code ex_dep) = [10; 1; 0]%Q /\
+  map (fun p => this (norm2 p)) ex_dep = [1; 4; 10]%Q /\
+  map (fun pu => this (kept_intensity (fst pu) (snd pu))) (combine ex_dep (gs ex_dep)) = [1; 0; 10]%Q.
+Proof. repeat split; vm_compute; reflexivity. Qed.
+
+(* a non-zero mode shorter than eps = 1e-12 is not restored to its norm: |p|^2 = 1e-26 -> 1e-28 *)
+Example C10_gsc_tiny_mode_loses_intensity :
+  let p : vec := [(Q2Qc (1 # 10000000000000), 0)] in
+  map (fun m => this (mode_intensity m)) (orthogonalize_c eps2_code [p]) = [1 # 10000000000000000000000000000]%Q /\
+  this (norm2 p) = (1 # 100000000000000000000000000)%Q.
+Proof. cbn zeta. split; vm_compute; reflexivity. Qed.
+
+(* the premise of C10_gsc_clamp_idle_is_model on the round-2 example *)
+Example C10_nonvacuous_clamp_idle : Forall (fun u => eps2_code <= norm2 u) (gs ex_ps).
+Proof. repeat constructor; vm_compute; discriminate. Qed.
+
+(* two orthogonal modes of EQUAL intensity: both arrangements are descending; the model keeps the
+   input order *)
+Definition ex_tie : list (Qc * list C) := [(1, [c1; c0]); (1, [c0; qi])].
+Definition show_mode (m : Qc * list C) := (this (fst m), map (fun z : C => (this (fst z), this (snd z))) (snd m)).
+Example C10_nonvacuous_ties :
+  map show_mode (sort_desc ex_tie) = map show_mode ex_tie /\
+  map show_mode (sort_desc (rev ex_tie)) = map show_mode (rev ex_tie) /\
+  map (fun m => this (mode_intensity m)) (sort_desc ex_tie) = [1; 1]%Q /\
+  StronglySorted (fun a b => mode_intensity b <= mode_intensity a) (rev ex_tie) /\
+  Permutation (rev ex_tie) ex_tie.
+Proof.
+  split; [vm_compute; reflexivity | split; [vm_compute; reflexivity | split; [vm_compute; reflexivity | split]]].
+  - cbn [rev app ex_tie]. constructor; [constructor; [constructor | constructor] | constructor; [|constructor]].
+    vm_compute. discriminate.
+  - cbn [rev app ex_tie]. apply perm_swap.
+Qed.
+
+(* multiplication by i is an isometry: the premise of C10_common_isometry_preserves is satisfiable *)
+Example C10_nonvacuous_isometry : isometry (vscale qi).
+Proof. apply vscale_unit_isometry. apply Qc_is_canon. vm_compute. reflexivity. Qed.
+
+(* shifting ONE mode alone (what center_probe did before the repair) destroys orthogonality:
+   a = (1, 0), b = (0, 1), b rolled by one pixel = a *)
+Example C10_per_mode_shift_breaks_orthogonality :
+  let a : vec := [c1; c0] in let b : vec := [c0; c1] in let roll (v : vec) := tl v ++ firstn 1 v in
+  dot a b = c0 /\ norm2 (roll b) = norm2 b /\ dot a (roll b) <> c0.
+Proof.
+  cbn zeta. repeat split; try (vm_compute; reflexivity).
+  intro E. apply (f_equal fst) in E. apply (f_equal this) in E. vm_compute in E. discriminate E.
+Qed.
+
+(* weights: a zero weight and an all-negative request are admissible; a mixed-sign one is not *)
+Example C10_nonvacuous_weights_edges :
+  weights_admissible [Q2Qc 3; 0; 1] /\ weights_admissible [- (1); - Q2Qc 3] /\
+  ~ weights_admissible [Q2Qc 2; - (1); 1] /\ ~ weights_admissible [1; - (1)] /\
+  map this (apply_weights (Q2Qc 100) (norm_weights [Q2Qc 3; 0; 1]) [Q2Qc 5; Q2Qc 7; Q2Qc (1 # 2)]) = [75; 0; 25]%Q /\
+  map this (weight_scales (Q2Qc 100) (norm_weights [Q2Qc 2; - (1); 1]) [Q2Qc 5; Q2Qc 7; Q2Qc (1 # 2)]) = [20; -50 # 7; 100]%Q.
+Proof.
+  repeat split; try (vm_compute; reflexivity).
+  - intro Z; discriminate Z.
+  - repeat constructor; vm_compute; discriminate.
+  - intro Z; discriminate Z.
+  - repeat constructor; vm_compute; discriminate.
+  - intros [_ H]. inversion H as [|? ? _ H1]; subst. inversion H1 as [|? ? H2 _]; subst. vm_compute in H2. apply H2. reflexivity.
+  - intros [H _]. apply H. apply Qc_is_canon. vm_compute. reflexivity.
+Qed.
